@@ -11,7 +11,7 @@ Import ListNotations.
 From Anthem Require Import Syntax.Fol Syntax.Asp Sem.Domain Sem.Sat Sem.AspRef
   Model.FreshNames Model.TauStar
   Proofs.FreshNamesOk Proofs.TauStarBase Proofs.TauStarVal Proofs.TauStarBody Proofs.TauStarRule
-  Proofs.TauStarProgram Proofs.TauStarClosed.
+  Proofs.TauStarProgram Proofs.TauStarClosed Model.EvalAsp Proofs.EvalAspOk.
 Open Scope string_scope.
 
 (* (a) val_t(Z) holds exactly when the value of Z is one of the values of t, for EVERY term (all six
@@ -93,6 +93,14 @@ Theorem C01_closed :
   forall (P : program) (G : theory), tau_star P = Some G -> forall F, In F G -> free_variables F = [].
 Proof. exact tau_star_closed. Qed.
 Print Assumptions C01_closed.
+
+(* the executable reference evaluator used by the semantic cross-check (driver op sem_tau_star)
+   computes, with the trivial universe filter, exactly the value sets of the oracle *)
+Theorem C01_ref_vals :
+  forall (sg : fassign) (t : term) (v : gval),
+  In v (ref_vals all_values sg t) <-> vals (alookup sg) t v.
+Proof. exact ref_vals_spec. Qed.
+Print Assumptions C01_ref_vals.
 
 (* ---------- non-vacuity ---------- *)
 (* a program using every operator, all signs, a choice head, a constraint, with variables named
